@@ -13,9 +13,9 @@ MONITORS = ['views', 'fresh']
 
 
 def cases(ctx):
-    n = ctx.pick(220, 5000)
+    n = ctx.pick(220, 3000)
     out = [{'prop': PROPERTY, 'seed': ctx.seed * 1000003 + i, 'monitors': MONITORS, 'steps': (8, 40)} for i in range(n)]
-    nlong = ctx.pick(4, 60)
+    nlong = ctx.pick(4, 30)
     for i in range(nlong):  # long histories with dozens of packs
         out.append({'prop': PROPERTY, 'seed': ctx.seed * 1000003 + 500000 + i, 'monitors': MONITORS,
                     'steps': (120, 200), 'pack_targets': [50, 500], 'gen': {'big_p': 0.0, 'chunk_p': 0.01}})
